@@ -369,7 +369,12 @@ func C05(p *an.Prog, r *an.Report) {
 				case an.LConst:
 					// the store-type prefix is prepended by the verifier itself or by its
 					// unexported data-for-signing helper, not inside a (sub)structure serializer
-					shallow := len(l.Via) == 0 || (len(l.Via) == 1 && !isExportedFnKey(l.Via[0]))
+					shallow := len(l.Via) <= 3
+					for _, via := range l.Via {
+						if isExportedFnKey(via) || !strings.Contains(via, an.ShortPkg(an.FnPkgPath(fn))+".") {
+							shallow = false
+						}
+					}
 					if b, ok := l.V.Type().Underlying().(*types.Basic); ok && b.Kind() == types.Uint8 && shallow {
 						byteConsts[l.Name] = true
 					}
